@@ -791,6 +791,111 @@ func drawPath(t *Tape) string {
 	return p
 }
 
+// ---- grammar-based argument strings: built from the keys and values actually present in the
+// Map, reserved tokens, numbers at the integer limits and a little garbage
+
+var idxForms = []string{"0", "1", "2", "-1", "99", "2147483647", "2147483648", "4294967295", "4294967296", "9223372036854775807", "9223372036854775808", "18446744073709551615", "", "x", "1.5", "+1", " 1", "0x1", "1e3"}
+var typeNames = []string{"string", "char", "text", "bool", "boolean", "float", "float64", "num", "number", "numeric", "int", "", "BOOL", "bogus", "*"}
+
+func collectKeysVals(v interface{}, keys, vals *[]string, depth int) {
+	if depth > 6 || len(*keys) > 40 {
+		return
+	}
+	switch x := v.(type) {
+	case map[string]interface{}:
+		ks := make([]string, 0, len(x))
+		for k := range x {
+			ks = append(ks, k)
+		}
+		sortStrings(ks)
+		for _, k := range ks {
+			*keys = append(*keys, k)
+			collectKeysVals(x[k], keys, vals, depth+1)
+		}
+	case []interface{}:
+		for _, e := range x {
+			collectKeysVals(e, keys, vals, depth+1)
+		}
+	case string:
+		*vals = append(*vals, x)
+	default:
+		*vals = append(*vals, fmt.Sprint(x))
+	}
+}
+
+func sortStrings(s []string) {
+	for i := 1; i < len(s); i++ {
+		for j := i; j > 0 && s[j] < s[j-1]; j-- {
+			s[j], s[j-1] = s[j-1], s[j]
+		}
+	}
+}
+
+func gSeg(t *Tape, keys []string) string {
+	k := ""
+	switch t.Draw(8) {
+	case 0:
+		k = "*"
+	case 1:
+		k = []string{"", "nosuch", "#text", "-id", "!", ":", "[", "]", "a.b"}[t.Draw(9)]
+	default:
+		if len(keys) > 0 {
+			k = keys[t.Draw(len(keys))]
+		}
+	}
+	switch t.Draw(6) {
+	case 4:
+		k += "[" + idxForms[t.Draw(len(idxForms))] + "]"
+	case 5:
+		k += []string{"[", "]", "[]", "[0", "0]", "][", "[0][1]", "[[0]]", "]0["}[t.Draw(9)]
+	}
+	return k
+}
+
+func gPath(t *Tape, keys []string) string {
+	n := 1 + t.Small(5)
+	segs := make([]string, n)
+	for i := range segs {
+		segs[i] = gSeg(t, keys)
+	}
+	p := strings.Join(segs, ".")
+	switch t.Draw(10) {
+	case 8:
+		p = "." + p
+	case 9:
+		p += "."
+	}
+	return p
+}
+
+func gFields(t *Tape, keys, vals []string, sep string) string {
+	n := []int{2, 2, 2, 3, 3, 1, 4, 0, 5}[t.Draw(9)]
+	f := make([]string, n)
+	for i := range f {
+		switch {
+		case i == 0:
+			f[i] = gSeg(t, keys)
+			if t.Draw(5) == 4 {
+				f[i] = "!" + f[i]
+			}
+		case i == 1:
+			switch t.Draw(4) {
+			case 0:
+				f[i] = "*"
+			case 1:
+				f[i] = []string{"", "true", "T", "1", "1.5", "NaN", "Inf", "0x10", "1e999", "maybe"}[t.Draw(10)]
+			default:
+				if len(vals) > 0 {
+					f[i] = vals[t.Draw(len(vals))]
+				}
+			}
+		default:
+			f[i] = typeNames[t.Draw(len(typeNames))]
+		}
+	}
+	return strings.Join(f, sep)
+}
+
 func runC15Args(c *Ctx) *Violation {
 	t := c.T
 	doc := genJSONDoc(t, JSONOpts{Nulls: true, MaxDepth: 4})
@@ -818,14 +923,29 @@ func runC15Args(c *Ctx) *Violation {
 	nops := 1 + t.Small(6)
 	c.StepLimit = 200_000 // small Maps: a legitimate call takes a few thousand yields
 	var ops []string
+	var mkeys, mvals []string
+	collectKeysVals(map[string]interface{}(m), &mkeys, &mvals, 0)
+	sep := ":"
+	if fs, ok := c.R["field_separator"].(string); ok {
+		sep = fs
+	}
 	for i := 0; i < nops; i++ {
 		c.Eval()
+		grammar := t.Draw(2) == 1
 		path := drawPath(t)
 		var sk []string
 		for j, n := 0, t.Small(3); j < n; j++ {
 			sk = append(sk, subKeys[t.Draw(len(subKeys))])
 		}
 		key := pathSegs[t.Draw(len(pathSegs))]
+		if grammar {
+			path = gPath(t, mkeys)
+			sk = sk[:0]
+			for j, n := 0, t.Small(3); j < n; j++ {
+				sk = append(sk, gFields(t, mkeys, mvals, sep))
+			}
+			key = gSeg(t, mkeys)
+		}
 		var name string
 		var f func()
 		switch t.Draw(17) {
@@ -850,6 +970,9 @@ func runC15Args(c *Ctx) *Violation {
 			name, f = fmt.Sprintf("RenameKey(%q,%q)", path, key), func() { m.RenameKey(path, key) }
 		case 9:
 			nv := newVals[t.Draw(len(newVals))]
+			if grammar {
+				nv = gFields(t, mkeys, mvals, sep)
+			}
 			name, f = fmt.Sprintf("UpdateValuesForPath(%q,%q,%q)", nv, path, sk), func() { m.UpdateValuesForPath(nv, path, sk...) }
 		case 10:
 			nv := map[string]interface{}{key: "nv"}
@@ -858,6 +981,16 @@ func runC15Args(c *Ctx) *Violation {
 			var kp []string
 			for j, n := 0, 1+t.Small(3); j < n; j++ {
 				kp = append(kp, keyPairs[t.Draw(len(keyPairs))])
+			}
+			if grammar {
+				kp = kp[:0]
+				for j, n := 0, 1+t.Small(3); j < n; j++ {
+					pair := gPath(t, mkeys)
+					for q, nq := 0, []int{1, 1, 1, 0, 2}[t.Draw(5)]; q < nq; q++ {
+						pair += ":" + gPath(t, append([]string{"x", "y", "z"}, mkeys...))
+					}
+					kp = append(kp, pair)
+				}
 			}
 			if t.Draw(4) == 3 {
 				// new paths that extend each other: the second walks through what the first stored
